@@ -15,7 +15,8 @@ CONSTANTS LATS,          \* lattices (names) that get generator lists of up to M
           TENSOR_LATS,   \* lattices whose groups act on tensors (the action depends on the frame only)
           RANKS, COMBOS, \* COMBOS: "few" | "all" | "invalid"
           NGENERIC, BASIS, MAXPAIRS, \* tensors: NGENERIC generic ones per rank (+ all basis tensors); action law on groups up to MAXPAIRS
-          KSET, NKMAX
+          KSET, NKMAX,
+          ONLYC, ONLYH   \* if not empty: only these catalogue indices (cubic / hexagonal family) are used as generators
 
 VARIABLES pc, lat, gens, G, npass, inp, out
 vars == <<pc, lat, gens, G, npass, inp, out>>
@@ -40,8 +41,11 @@ Catalogue(fam) ==
          <<TR, "C2x">>, <<TR, "Mz">>, <<TR, "C6z">>, <<TR, "Inversion">>, <<"Inversion", "C6z">>, <<TR, "C3z">> >>
 Elem(fam, n) == FromStringProd(fam, Catalogue(fam)[n])
 Compatible(l) == {n \in 1..Len(Catalogue(Lat(l).fam)) : MapsLattice(Elem(Lat(l).fam, n).R, Lat(l))}
+Only(fam) == IF fam = "cub" THEN ONLYC ELSE ONLYH
 GenIdx(l) ==
-   LET all == 1..Len(Catalogue(Lat(l).fam))  c == Compatible(l)  full == l \in LATS IN
+   LET only == Only(Lat(l).fam)
+       all == IF only = {} THEN 1..Len(Catalogue(Lat(l).fam)) ELSE only
+       c == Compatible(l) \cap all  full == l \in LATS IN
    IF DUPS THEN {<<a, a>> : a \in {2, 7, 12} \cap c} \cup {<<7, 2, 7>>}
    ELSE {<<>>} \cup {<<a>> : a \in all}
         \cup (IF full /\ MAXGEN >= 2 THEN {<<a, b>> : a, b \in c} \ {p \in {<<a, b>> : a, b \in c} : p[1] = p[2] \/ (~ORDERED /\ p[1] > p[2])} ELSE {})
@@ -123,9 +127,12 @@ Spec == Init /\ [][Next]_vars
 L0 == Lat(lat)
 AtGroup == pc = "group"
 (* C09, group part *)
-GroupClosed     == AtGroup => Closed(G) /\ \A i, j \in 1..Len(G) : out.tab[i][j] # 0
+(* out.tab[i][j] = position of G[i] * G[j] in G (0 if absent), so closure and inverses are read off the table *)
+GroupClosed     == AtGroup => \A i, j \in 1..Len(G) : out.tab[i][j] # 0
 GroupIdentity   == AtGroup => HasIdentity(G)
-GroupInverses   == AtGroup => HasInverses(G)
+GroupInverses   == AtGroup => LET e == IndexOrZero(G, Identity) IN
+                      e # 0 /\ \A i \in 1..Len(G) : \E j \in 1..Len(G) : out.tab[i][j] = e /\ out.tab[j][i] = e /\ Mul(G[i], G[j]) = Identity
+GroupAxiomsDirect == AtGroup => Closed(G) /\ HasInverses(G)           \* the same from the definitions (thorough tier)
 GroupSize       == AtGroup => SizeBound(G)
 GroupNoDup      == AtGroup => NoDuplicates(G)
 GroupFrame      == AtGroup => FrameInvariant(G, L0.fam)
